@@ -155,6 +155,15 @@ Theorem C18_to_array_by_name : forall (x : sarr) (qn : list string),
 Proof. exact to_array_by_name. Qed.
 Print Assumptions C18_to_array_by_name.
 
+(* the default names=None of live_points_to_array / live_points_to_dict: ALL fields in storage order *)
+Theorem C18_to_array_default_names : forall x : sarr,
+  NoDup (s_names x) -> Forall (fun r => length r = length (s_names x)) (s_rows x) ->
+  lp_to_array x (s_names x) = Ok (s_rows x)
+  /\ lp_to_array_all x = Ok (map (map to_f8) (s_rows x))
+  /\ lp_to_dict x (s_names x) = Ok (combine (s_names x) (map (fun i => col_at i (s_rows x)) (seq 0 (length (s_names x))))).
+Proof. exact to_array_all_fields. Qed.
+Print Assumptions C18_to_array_default_names.
+
 (* live points holding the data a, read back under ANY order / subset qn of the parameter names:
    column j is the data column of qn[j] (value under name k after = value under k before) *)
 Theorem C18_roundtrip_by_name : forall (names : list string) (nsp : bool) (v : nsview)
